@@ -384,6 +384,21 @@ class Run:
             shutil.rmtree(work, ignore_errors=True)
             if rc != 0:
                 tail = open(log.name).read()[-1500:]
+                died = rc < 0 or any(w in tail for w in ("SIGSEGV", "signal SIG", "fatal error:", "unexpected fault address", "[signal "))
+                if died:
+                    # the process running the REAL code died (a crash inside C code, a Go runtime fatal error): that is a
+                    # result about the code, not about the machinery.  Run the shard again with every trace line flushed,
+                    # so that the replay holds what had been fed to the code when it died.
+                    env2 = dict(GOENV, GOMAXPROCS="2", HX_SYNC="1")
+                    subprocess.run(p.args, stdout=subprocess.DEVNULL, stderr=subprocess.DEVNULL, env=env2, timeout=timeout)
+                    lines = open(trace, errors="replace").read().split("\n") if os.path.exists(trace) else []
+                    body = replay and [l.rstrip("\n") for l in open(replay) if not l.startswith("#")] or [l for l in lines if l and not l.startswith("#")][-400:]
+                    self.diffs.append({"engine": engine, "trace": trace, "line": len(lines), "kind": "oracle", "key": "%s/process-died" % self.prop,
+                                       "case": None, "died": True, "body": body,
+                                       "text": "DIFF kind=oracle key=%s/process-died the process running the real code died (exit %d): %s" % (self.prop, rc, tail[-300:].replace("\n", " ")),
+                                       "input": (body[-1] if body else "")[:2000]})
+                    procs = [q for q in procs if q[0] is not p]
+                    continue
                 raise MachineryError("engine %s shard %d exited %d:\n%s" % (engine, s, rc, tail))
         dprocs = []
         for p, trace, work, log, s in procs:
@@ -512,6 +527,11 @@ class Run:
 
     def case_lines(self, d):
         """the trace lines of the failing case (stateful engines mark cases with `case <id>` ... `end`)"""
+        if d.get("died"):
+            # the last case of what had been fed to the code when the process died
+            body = d.get("body") or []
+            start = max([i for i, l in enumerate(body) if l.startswith("case ")] or [0])
+            return body[start:]
         lines = open(d["trace"], errors="replace").read().split("\n")
         ln = d["line"] - 1
         start = ln
